@@ -9,6 +9,7 @@ from labtech.runners.base import run_or_load_task
 from labtech.tasks import get_direct_dependencies
 from labtech.types import LabContext, ResultMeta, Runner, RunnerBackend, Storage, Task, TaskMonitorInfo, TaskResult
 from labtech.utils import logger
+from labtech import _verif
 
 
 @dataclass(frozen=True)
@@ -27,6 +28,7 @@ class SerialRunner(Runner):
         self.results_map: dict[Task, TaskResult] = {}
 
     def submit_task(self, task: Task, task_name: str, use_cache: bool) -> None:
+        _verif.emit('submit', t=_verif.task_id(task), uc=int(bool(use_cache)))
         self.task_submissions.append(TaskSubmission(
             task=task,
             task_name=task_name,
@@ -40,6 +42,8 @@ class SerialRunner(Runner):
             return
 
         task = task_submission.task
+        _verif.emit('pstart', t=_verif.task_id(task))
+        _verif.emit('sample', dead=[])
         try:
             for dependency_task in get_direct_dependencies(task):
                 dependency_task._set_results_map(self.results_map)
@@ -53,9 +57,11 @@ class SerialRunner(Runner):
         except KeyboardInterrupt:
             raise
         except BaseException as ex:
+            _verif.emit('consume', t=_verif.task_id(task), ok=0)
             yield (task, ex)
         else:
             self.results_map[task] = task_result
+            _verif.emit('consume', t=_verif.task_id(task), ok=1)
             yield (task, task_result.meta)
 
     def cancel(self) -> None:
